@@ -94,6 +94,7 @@ def run(model, rep, tier):
     for node, path, toks in res.stores:
         rep.note('store %s <- %s (line %d)' % (path, sorted(_tokname(t) for t in toks), node.lineno))
     _dominance(model, rep, mod, ci, fn)
+    _keyhash(model, rep, mod)
     _memo(model, rep)
     _invalidation(model, rep, mod, ci)
     rep.count('callee summaries', len(summaries))
@@ -251,6 +252,37 @@ def _dominance(model, rep, mod, ci, fn):
         ok = rv in assigned or rn.lineno > miss.end_lineno  # recomputed in the miss block, or read after it
         rep.ob('cache-key-coherence', mod, miss, 'miss block recomputes %s (cache %s)' % (rv, cname), ok,
                '' if ok else '%s stays None after a cache miss' % rv, engine='flow', qual='VacancyMediated.Lij')
+
+
+def _keyhash(model, rep, mod):
+    """the cache key's __eq__ is tolerant (np.allclose); what keeps different inputs in different entries is a hash over
+    the *exact* bytes of every field.  A lossy hash (rounding, casting, a subset of the fields) lets a lookup reach an
+    entry stored for a different input, and the tolerant __eq__ then accepts it."""
+    rep.rule('cache-key-exact-hash', 'the cache key hashes the exact bytes of every field (no rounding / casting / omission)')
+    ci = model.cls('OnsagerCalc', 'vacancyThermoKinetics')
+    h = ci.methods.get('__hash__')
+    if h is None or ci.namedtuple_fields is None:
+        raise AnalysisError('anchor vanished: vacancyThermoKinetics.__hash__ / fields')
+    exact = set()
+    lossy = []
+    for n in ast.walk(h):
+        if isinstance(n, ast.Call) and isinstance(n.func, ast.Attribute) and n.func.attr == 'tobytes':
+            r = unparse(n.func.value)
+            for f in ci.namedtuple_fields:
+                if r in ('self.%s' % f, 'self.%s.data' % f):
+                    exact.add(f)
+        if isinstance(n, ast.Call):
+            d = (dotted(n.func) or unparse(n.func)).split('.')[-1]
+            if d in ('round', 'around', 'rint', 'floor', 'ceil', 'trunc', 'astype', 'fix', 'digitize', 'float32', 'float16',
+                     'int', 'int_', 'int64', 'int32'):
+                lossy.append(d)
+    for f in ci.namedtuple_fields:
+        ok = f in exact and not lossy
+        rep.ob('cache-key-exact-hash', mod, h, 'vacancyThermoKinetics.__hash__ covers the exact bytes of %s' % f, ok,
+               '' if ok else ('hash %s: a later input that differs from a cached one can find the cached entry, and the '
+                              'tolerant __eq__ accepts it -- Lij then returns values computed for another input'
+                              % ('applies %s before hashing' % ', '.join(sorted(set(lossy))) if lossy else 'does not depend on ' + f)),
+               engine='eqhash', qual='vacancyThermoKinetics.__hash__')
 
 
 # ---------------------------------------------------------------- memo guards
